@@ -152,6 +152,28 @@ Fixpoint seq_from (g : graph F) (internal : nat -> mstate V) (orc : nat -> pst -
 
 Definition seq_transition g internal orc ks st := seq_from g internal orc 0 ks st.
 
+(* The same loop with the transition infos: every kernel also reports an error code (DefaultTransitionInfo.error_code,
+   an arbitrary oracle [codes] of the kernel index and the received state: NaN acceptance probability 90, NUTS
+   "maximum tree depth" 2, a user kernel's own codes ...).  The code goes into the infos dict and nowhere else:
+       model_state = result.model_state            (unconditionally)
+       infos[kernel.identifier] = result.info
+   so the successor starts from the state its predecessor RETURNED whatever code it reported. *)
+Fixpoint seq_from_c (g : graph F) (internal : nat -> mstate V) (orc : nat -> pst -> proposal)
+         (codes : nat -> pst -> nat) (i : nat) (ks : list kernel) (st : pst)
+  : option (pst * list pst * list nat) :=
+  match ks with
+  | [] => Some (st, [], [])
+  | k :: r =>
+      match ktransition g (internal i) k (orc i st) st with
+      | None => None
+      | Some st1 =>
+          match seq_from_c g internal orc codes (S i) r st1 with
+          | None => None
+          | Some (stf, tr, cs) => Some (stf, st :: tr, codes i st :: cs)
+          end
+      end
+  end.
+
 (* the engine: one kernel-sequence transition per iteration, the carry holds the model state *)
 Fixpoint iterate (g : graph F) (its : list ((nat -> mstate V) * (nat -> pst -> proposal)))
          (ks : list kernel) (st : pst) : option pst :=
@@ -186,4 +208,5 @@ Arguments extract_position {V}.
 Arguments ktransition {V F}.
 Arguments seq_from {V F}.
 Arguments seq_transition {V F}.
+Arguments seq_from_c {V F}.
 Arguments iterate {V F}.
